@@ -374,6 +374,28 @@ SymH.arr = _arr_sym
 FloatH.arr = _arr_float
 
 
+def _abstract_sym(self, name, value):
+    """replace a (large) term by a fresh unconstrained symbol: the clause is then decided for every value the
+    term could take (sound over-approximation); the float replay uses the value itself"""
+    return core.var("abs_" + name, kind="abstract")
+
+
+def _abstract_float(self, name, value):
+    return value
+
+
+SymH.abstract = _abstract_sym
+FloatH.abstract = _abstract_float
+
+
+def _option_sym(self, name, value):
+    setattr(CTX, name, value)
+
+
+SymH.option = _option_sym
+FloatH.option = lambda self, name, value: None
+
+
 # ---- rotation-vector input by the polynomial cone parametrisation
 def _cone_sym(self, prefix, chart="lt_pi", mirror=False, upper=None):
     """psi = lam (2p, 2q, 1-p^2-q^2) (mirror: z negated), |psi| = lam (1+p^2+q^2) =: a, lam >= 0.
